@@ -5,8 +5,13 @@ import json, os, re, subprocess, sys, glob
 ROOT = os.path.dirname(os.path.dirname(os.path.abspath(__file__)))
 props = [json.loads(l) for l in open(os.path.join(ROOT, 'properties.jsonl'))]
 anch = {p['id']: set(p['anchors']['files']) for p in props}
-out = open(os.path.join(ROOT, 'refactors', 'QUIET_CROSS.txt'), 'w')
-only = sys.argv[1:] 
+only = sys.argv[1:]
+outp = os.path.join(ROOT, 'refactors', 'QUIET_CROSS.txt')
+# a partial run keeps the lines of the refactorings it does not re-run
+kept = [l for l in open(outp).read().splitlines() if only and l.split(' | ')[0] not in only] if os.path.exists(outp) else []
+out = open(outp, 'w')
+for l in kept: out.write(l + '\n')
+out.flush()
 for d in sorted(glob.glob(os.path.join(ROOT, 'refactors', 'C??-*'))):
     rid = os.path.basename(d)
     if only and rid not in only: continue
